@@ -9,6 +9,7 @@ import RapidProofs.PruneAssert
 import RapidModel.Generated.CallOrders
 import RapidProofs.PruneCustomAssert
 import RapidProofs.TranslatedMinEq
+import RapidProofs.TranslatedPruneEq
 
 namespace Rapid.C05
 
@@ -151,5 +152,28 @@ theorem source_without (data : List UInt64) (groups : List Translated.groupInfo)
       | some d => .ok d
       | none => .error .runtime :=
   tr_without data groups fuel hok hl hf
+
+/-- **`recordedBits.removeGroup(i)` of /repo is the model's `Rec.removeGroup`**: same data, same group list (the group and
+    what directly follows it and ends inside it dropped, everything behind shifted), for every recording with sizes
+    below 2^61 on which the model's function does not stop at a panic -/
+theorem source_removeGroup (r r' : Rec) (hs : r.Small) (i fuel : Nat) (hf : r.groups.length + 2 ≤ fuel)
+    (h : r.removeGroup i = some r') :
+    Translated.recordedBits_removeGroup r.data (r.groups.map goOf) (Int64.ofNat i) fuel = .ok (r'.data, r'.groups.map goOf) :=
+  tr_removeGroup r r' hs i fuel hf h
+
+/-- **`recordedBits.prune()` of /repo is the model's `Rec.prune`** — the loop over the groups, each `removeGroup`, and
+    the closing assertions that no group is left empty -/
+theorem source_prune (r r' : Rec) (hs : r.Small) (fuel : Nat) (hf : 2 * r.groups.length + 4 ≤ fuel) (h : r.prune = some r') :
+    Translated.recordedBits_prune r.data (r.groups.map goOf) true fuel = .ok (r'.data, r'.groups.map goOf, true) :=
+  tr_prune r r' hs fuel hf h
+
+/-- the premises are satisfiable: a recording with a discarded group between two kept ones -/
+example : (⟨[1, 2, 3], [⟨"a", true, 0, 1, false⟩, ⟨"b", true, 1, 2, true⟩, ⟨"c", true, 2, 3, false⟩]⟩ : Rec).Small ∧
+    (⟨[1, 2, 3], [⟨"a", true, 0, 1, false⟩, ⟨"b", true, 1, 2, true⟩, ⟨"c", true, 2, 3, false⟩]⟩ : Rec).prune =
+      some ⟨[1, 3], [⟨"a", true, 0, 1, false⟩, ⟨"c", true, 1, 2, false⟩]⟩ := by
+  refine ⟨⟨by decide, by decide, ?_⟩, by rfl⟩
+  intro g hg
+  simp only [List.mem_cons, List.not_mem_nil, or_false] at hg
+  rcases hg with rfl | rfl | rfl <;> exact ⟨by decide, by decide, by decide⟩
 
 end Rapid.C05
